@@ -15,6 +15,8 @@ use std::path::{Path, PathBuf};
 use std::process::{Command, Stdio};
 
 pub const BIN: &str = "/verif/sim/target/repo-bin/release/muxide";
+pub const SHIM: &str = "/verif/sim/target/shim.so";
+pub const SHIM_KINDS: [&str; 7] = ["eio_write", "enospc_write", "eintr_write", "short_write", "eio_read", "eintr_read", "short_read"];
 
 #[derive(Clone, Debug, Serialize, Deserialize, PartialEq)]
 pub enum Input {
@@ -110,6 +112,9 @@ pub struct CliCase {
     /// codec the generator had in mind for the frames
     pub vcodec: VCodec,
     pub acodec: Option<ACodec>,
+    /// libc-level fault injected into the child through the LD_PRELOAD shim: (kind, call index)
+    #[serde(default)]
+    pub shim: Option<(String, u32)>,
 }
 
 impl CliCase {
@@ -282,11 +287,15 @@ pub struct ChildOut {
     pub timed_out: bool,
 }
 
-pub fn run_child(dir: &Path, argv: &[std::ffi::OsString]) -> std::io::Result<ChildOut> {
-    let mut child = Command::new(BIN)
+pub fn run_child(dir: &Path, argv: &[std::ffi::OsString], shim: &Option<(String, u32)>) -> std::io::Result<ChildOut> {
+    let mut cmd = Command::new(BIN);
+    cmd.env_clear();
+    if let Some((kind, at)) = shim {
+        cmd.env("LD_PRELOAD", SHIM).env("SHIM_KIND", kind).env("SHIM_AT", at.to_string()).env("SHIM_LOG", dir.join("shim.log"));
+    }
+    let mut child = cmd
         .args(argv)
         .current_dir(dir)
-        .env_clear()
         .env("LANG", "C")
         .env("RUST_BACKTRACE", "0")
         .env("NO_COLOR", "1")
@@ -392,7 +401,7 @@ pub fn gen(rng: &mut Rng, scenario: &str) -> CliCase {
         }
         _ => {
             // mux
-            let valid = scenario == "mux-valid";
+            let valid = scenario == "mux-valid" || scenario == "mux-faulted";
             let (w, h) = good_dim(rng);
             let mut width = Some(w.to_string());
             let mut height = Some(h.to_string());
@@ -494,7 +503,8 @@ pub fn gen(rng: &mut Rng, scenario: &str) -> CliCase {
             CliCmd::Mux { video, audio, output, video_codec, width, height, fps, audio_codec, sample_rate, channels, title, language, fragmented, dry_run }
         }
     };
-    CliCase { cmd, json, verbose, no_progress, vcodec, acodec }
+    let shim = if scenario == "mux-faulted" { Some((rng.pick(&SHIM_KINDS).to_string(), rng.range(1, 10) as u32)) } else { None };
+    CliCase { cmd, json, verbose, no_progress, vcodec, acodec, shim }
 }
 
 // ---------------------------------------------------------------- expectations
@@ -715,7 +725,7 @@ fn eval_in(c: &CliCase, st: &mut RunStats, dir: &Path, out: &mut Vec<Violation>)
             .or_insert(0) += 1;
             let plan = plan_mux(c);
             let argv = c.argv(dir);
-            let child = run_child(dir, &argv)?;
+            let child = run_child(dir, &argv, &c.shim)?;
             th.u64(child.code.unwrap_or(-99) as u64);
             th.str(&String::from_utf8_lossy(&child.stdout).replace(&dir.display().to_string(), "<dir>"));
             ah.str(&format!("{:?}", plan.expect));
@@ -727,6 +737,32 @@ fn eval_in(c: &CliCase, st: &mut RunStats, dir: &Path, out: &mut Vec<Violation>)
                 return Ok(());
             }
             let completion = reports_completion(&child);
+            // a libc-level fault that really fired turns a valid run into one that must fail loudly
+            let mut plan = plan;
+            if let Some((kind, _)) = &c.shim {
+                let fired = std::fs::read_to_string(dir.join("shim.log")).map(|t| !t.is_empty()).unwrap_or(false);
+                if fired {
+                    *st.fired.entry(match kind.as_str() {
+                        "eio_write" => "shim_eio_on_write",
+                        "enospc_write" => "shim_enospc_on_write",
+                        "eintr_write" => "shim_eintr_on_write",
+                        "short_write" => "shim_short_write",
+                        "eio_read" => "shim_eio_on_read",
+                        "eintr_read" => "shim_eintr_on_read",
+                        _ => "shim_short_read",
+                    })
+                    .or_insert(0) += 1;
+                    if plan.expect == Expect::MustSucceed && matches!(kind.as_str(), "eio_write" | "enospc_write" | "eio_read") {
+                        plan.expect = Expect::MustFail(match kind.as_str() {
+                            "eio_read" => "EIO while reading an input (injected at read(2))",
+                            "enospc_write" => "ENOSPC while writing the output (injected at write(2))",
+                            _ => "EIO while writing the output (injected at write(2))",
+                        });
+                    }
+                }
+                ah.str(kind);
+                ah.u64(fired as u64);
+            }
             match &plan.expect {
                 Expect::MustSucceed => {
                     st.count("mux_must_succeed", 1);
@@ -800,7 +836,7 @@ fn eval_in(c: &CliCase, st: &mut RunStats, dir: &Path, out: &mut Vec<Violation>)
             }
             ah.u64(c.json as u64 * 2 + *report as u64);
             let argv = c.argv(dir);
-            let child = run_child(dir, &argv)?;
+            let child = run_child(dir, &argv, &c.shim)?;
             th.u64(child.code.unwrap_or(-99) as u64);
             th.str(&String::from_utf8_lossy(&child.stdout).replace(&dir.display().to_string(), "<dir>"));
             if child.timed_out {
@@ -915,7 +951,7 @@ fn eval_in(c: &CliCase, st: &mut RunStats, dir: &Path, out: &mut Vec<Violation>)
             }
             ah.u64(c.json as u64);
             let argv = c.argv(dir);
-            let child = run_child(dir, &argv)?;
+            let child = run_child(dir, &argv, &c.shim)?;
             th.u64(child.code.unwrap_or(-99) as u64);
             th.str(&String::from_utf8_lossy(&child.stdout).replace(&dir.display().to_string(), "<dir>"));
             if child.timed_out {
